@@ -204,10 +204,13 @@ def check_case(ctx: Ctx, c: Dict[str, Any], k: int = 0) -> None:
                     bad("SampleImage[data+mask]", "the sampled all-ones mask is zero at target samples strictly inside the source field of view", form="data+mask", what="mask")
         o = guarded("SampleImage", lambda: sm(tc, data=d4), form="data")
         cmp_lin("SampleImage[data=]", o, form="data")
+    # (a corner-aligned target with ONE sample along an axis has a cube of zero extent along it: target points cannot be expressed in its cube
+    #  coordinates, which is what align_centers and AlignImage work in - those forms are not judged on such targets, as for explicit CUBE_CORNERS axes)
+    degenerate_t = gt.align_corners() and min(c["gt"]["n"]) == 1
     # align_centers=True: the target grid is moved so that its center coincides with the source's; same as sampling on that moved grid
     gt_c = gt.center(gs.center())
     ref_c = guarded("Image.sample", lambda: img.sample(gt_c, mode="linear", padding=pad).tensor(), role="align_centers reference")
-    for cls_name in ("SampleImage", "TransformImage", "AlignImage"):
+    for cls_name in ("SampleImage", "TransformImage", "AlignImage") if not degenerate_t else ():
         import deepali.modules.sample as MS
 
         cls_c = getattr(MS, cls_name)
@@ -219,17 +222,16 @@ def check_case(ctx: Ctx, c: Dict[str, Any], k: int = 0) -> None:
         if o is not None and (o.numel() != ref_c.numel() or max_err(o.reshape(ref_c.shape), ref_c) > 1e-4 * max(1.0, float(ref_c.abs().max()))):
             bad(cls_name, f"align_centers=True differs from sampling on the target grid moved onto the source's center by {max_err(o.reshape(ref_c.shape), ref_c) if o.numel() == ref_c.numel() else 'shape'}", align_centers=True)
     # TransformImage / AlignImage without a transform are plain resamplers from the source to the target grid
+    from deepali.core.enum import Sampling
     from deepali.modules.sample import AlignImage, TransformImage
 
-    for cls_ in (TransformImage, AlignImage):
+    for cls_ in (TransformImage, AlignImage) if not degenerate_t else ():
         for ax in (None, Axes.WORLD, Axes.CUBE):
             tm = guarded(cls_.__name__, lambda: cls_(target=gt, source=gs, axes=ax, sampling="linear", padding=pad), axes=str(ax and ax.value), transform=None)
             if tm is not None:
                 o = guarded(cls_.__name__, lambda: tm(None, data.unsqueeze(0).unsqueeze(0)), axes=str(ax and ax.value), transform=None)
                 cmp_lin(cls_.__name__ + "(None)", o, axes=str(ax and ax.value))
         # nearest-neighbour mode named in every accepted way (keyword / positional, str / enum)
-        from deepali.core.enum import Sampling
-
         for how, mk in (("sampling='nearest'", lambda: cls_(target=gt, source=gs, sampling="nearest", padding=pad)), ("Sampling.NEAREST", lambda: cls_(gt, gs, None, Sampling.NEAREST, pad)),
                         ("sampling='nn'", lambda: cls_(target=gt, source=gs, sampling="nn", padding=pad))):
             tm = guarded(cls_.__name__, mk, mode="nearest", how=how)
